@@ -11,13 +11,13 @@ CHECKS = {
                 text='Every tree the real parser returns for TLC-enumerated strings (three alphabets), class walks, token-pool '
                      'strings, corpus chunks and mutations, in all 9 grammar versions, for str and bytes input, is serialised '
                      'and validated by TLC against the Tree.C01 clauses: leaves tile the input, every node\'s get_code() is '
-                     'the slice it spans, the root\'s code is the input.',
+                     'the slice it spans, the root\'s code is the input. The standard text set also holds the indentation-shape programs (IndentShapes), string-literal shapes (StrLits), escape literals, one sentence through every DFA arc of every grammar (two-level arc cover) and rendered FStringB lexeme lines; the token half (TokenStream.Tiles) runs on the full f-string enumeration.',
                 note='TLC, the JSON recorder layer (logs values only); bytes input uses UTF-8 text without a coding cookie '
                      '(decoding is C15).', ref='2.4, 3 C01'),
     'C02': dict(level=MC, tech='TLA+ B-spec ParserB (NeverCrash, exhaustive over token streams) + Tree.C02 shape clauses on real trees',
                 text='Real recovering parser run on the standard text set and on depth probes (28 recursive constructs nested '
                      'exactly 100 deep x 9 versions): any exception is a rejected trace; every returned tree is validated by '
-                     'TLC against Tree.C02 (root without parent, ends in endmarker, no empty interior node, string leaves).',
+                     'TLC against Tree.C02 (root without parent, ends in endmarker, no empty interior node, string leaves). Plus termination probes: 27 long single tokens / flat runs (40-400 digit literals, 20 000-character names, 90 000-character strings, 20 000 operators ...) parsed in a child process under a time limit (clause Terminates).',
                 note='TLC; recorder; nesting bound 100 as stated in the property.', ref='2.3, 2.4, 3 C02'),
     'C03': dict(level=MC, tech='TLA+ A-spec Tree (position clauses from PosTable over the input) + TLC trace validation',
                 text='start_pos/end_pos/get_start_pos_of_prefix of every leaf and node of real trees are compared by TLC with '
@@ -29,7 +29,7 @@ CHECKS = {
                      'BOM and newline toggles are rendered (LF/CRLF, 2/4-space) and fed to parse(diff_cache=True); after every '
                      'update TLC checks: no exception, code = new text, dump = dump of a fresh parse, used-names index equals '
                      'the fresh one (index warmed before each update), plus diagnostic clauses on the copy/parse log; the final '
-                     'tree of each history satisfies the Tree clauses (tiling, positions, parent links).',
+                     'tree of each history satisfies the Tree clauses (tiling, positions, parent links). Histories are also rendered with bare-CR line ends.',
                 note='TLC; Fresh = the real non-incremental parser; copy/parse events come from the existing LOG.debug lines '
                      '(diagnostic only, reported as MODEL-DRIFT).', ref='2.6, 3 C04'),
     'C05': dict(level=MC, tech='TLA+ B-spec ParserB (NodesConform at every closing node) + ConformTrace: TLC validates every node of real trees against the position automaton of the rule text',
@@ -44,7 +44,7 @@ CHECKS = {
                 text='TLC enumerates every sentence of file_input and eval_input up to 4 (quick) / 5 (thorough) tokens with its '
                      'derivation, plus simulated long sentences; each is rendered (two spellings) and the real strict parser '
                      'must accept it and return exactly that derivation (after the documented conventions); the recovering '
-                     'parser must return the identical tree without error nodes.',
+                     'parser must return the identical tree without error nodes. Also: one sentence through every arc of every DFA reachable from the start rule (two-level arc cover, all 9 versions), NAME tokens spelled as keyword look-alikes (prefixes, compatibility characters whose NFKC form is a keyword), and right-recursive rules pumped past the interpreter\'s recursion limit (strict and recovering parse must return and tile the text).',
                 note='TLC; token classes (one representative per class with identical plans); renderer is self-checking '
                      '(re-tokenised).', ref='2.3, 3 C06'),
     'C07': dict(level=MC, tech='TLA+ Tree.C07 clauses evaluated by TLC on paired strict/recovering runs of the real parser; ParserB FilterInert/StrictNeverRecovers exhaustive',
@@ -59,14 +59,14 @@ CHECKS = {
                      'live objects on every run): language equality of each real DFA with the rule text (SameFinal/SameArcs '
                      'over the reachable product), token->plan tables exactly as specified (PlansExact, NoTokenTwice). '
                      'Plus every small grammar TLC enumerates (GrammarEnum) through the real generate_grammar: accepted '
-                     'exactly when LL(1), rejected with ambiguity/left-recursion errors otherwise, tables checked as above.',
+                     'exactly when LL(1), rejected with ambiguity/left-recursion errors otherwise, tables checked as above. Plus every loop (star / plus) around a nullable body of depth <= 2 followed by a terminal, and enumerated grammars with the terminals respelled occurrence by occurrence (other quote, hex / unicode / octal escapes).',
                 note='TLC; the independent EBNF reader harness/ebnf.py; nullable rules excluded as outside the property.',
                 ref='2.2, 3 C08'),
     'C09': dict(level=MC, tech='TLA+ A-spec TokenStream + TLC trace validation of real token streams; Tree.C09 for prefix splitting',
                 text='Token streams of the real tokenize() for every string TLC enumerates (general alphabet <=3, f-string '
                      'alphabet <=4 after an f-string start, indentation alphabet <=4), class walks, pool strings, corpus chunks '
                      'and mutations are validated by TLC against TokenStream (Tiles, TruePos, Balanced, OneEndmarker, PurePrefix, '
-                     'NeverFails); leaves of parse() against PurePrefix/SplitPrefix*.',
+                     'NeverFails); leaves of parse() against PurePrefix/SplitPrefix*. Every 5th item first abandons a token stream inside an indented block (state left behind by an earlier stream). Four B-specs model the tokenizer\'s sub-machines - TokenizerB (indentation / brackets / newlines, lexeme at a time), FStringB (f-strings, line at a time), ContStrB (ordinary / triple-quoted / continued strings), PrefixB (split_prefix): their design invariants are model-checked, real token streams / prefix parts are validated against their predictions and their simulated runs are replayed into the real tokenizer; a disagreement is reported as MODEL-DRIFT, a raise of the real function as a violation.',
                 note='TLC; recorder. The binding is demonstrated on every run (five corrupted traces must be rejected).',
                 ref='2.1, 3 C09'),
     'C10': dict(level='exploration', tech='TLA+ relation TokenAgreement (spec Relational) evaluated by TLC on (CPython V tokenize, parso tokenize) pairs; programs from corpus, mutations and ParserB sentences',
@@ -74,7 +74,7 @@ CHECKS = {
                      'mutations, rendered grammar sentences from ParserB) the significant-token projection of CPython\'s stream '
                      'must equal the merged projection of parso\'s (type class, exact text, line/column; f-strings as one string '
                      'located by its start; INDENT at CPython\'s end; closing DEDENTs and ENDMARKER by type). The projections and '
-                     'the comparison are written in TLA+; the explored set is sampled, hence exploration.',
+                     'the comparison are written in TLA+; the explored set is sampled, hence exploration. Plus TLC-enumerated numeric, string-literal, escape and layout strings (names, brackets, line ends, comments, continuations, indentation, \';\': all strings of <= 4 symbols). Programs that tokenize but do not compile are used when the reference is the C tokenizer (3.12+), the compile error is parser-level and no token is a pass-through artefact.',
                 note='CPython interpreters 3.6-3.13 (3.14 judged by 3.13); programs with a bare \\r are skipped (readline-based '
                      'reference).', ref='2.10, 3 C10'),
     'C11': dict(level=MC, tech='TLA+ A-spec Tree (navigation and LeafForPosition clauses) + TLC trace validation',
@@ -87,13 +87,13 @@ CHECKS = {
                 text='Every (context stack <= 2/3 frames, statement) pair of SemCtx rendered from templates, stdlib chunks, mutations '
                      'and ParserB sentences, each kept iff interpreter V compiles it: (a) if 3.8 compiles it too, parso must produce no '
                      'error node and no issue; (b) without error nodes there must be no issue. Eleven genuine false positives found '
-                     'this way are listed as known findings keyed by message / shape.',
+                     'this way are listed as known findings keyed by message / shape. All (context, statement) pairs of depth <= 1 are always kept; the literal and layout enumerations of C10 are judged too.',
                 note='CPython interpreters as oracle; message-keyed known findings (identifier names normalised).', ref='2.10, 3 C12'),
     'C13': dict(level=MC, tech='TLA+ A-spec Issues (kind errors) evaluated by TLC on recorded iter_errors() results paired with the serialised tree',
                 text='For every text (standard set + ParserB sentences-with-errors and arbitrary token streams) iter_errors is called '
                      'twice on the real tree; TLC checks: no exception, tree dump unchanged, both lists equal, codes 901/903 with '
                      'matching message prefix, ranges inside the file, one issue per line, every error leaf line and every '
-                     'outermost error node next-token line carries an issue, non-empty when strict parsing fails.',
+                     'outermost error node next-token line carries an issue, non-empty when strict parsing fails. The second listing of every tree is made in a reversed second pass over the shard; the same text is also listed after an incremental re-parse that follows an earlier listing on the old tree (three kinds of edits) and after a pickle round trip (clause IndependentOfEarlierCallsAndProvenance); SemCtx programs are part of the text set.',
                 note='TLC; recorder. One systematic exception is a known finding (f-string error nodes, versions >= 3.9).',
                 ref='2.5, 3 C13'),
     'C18': dict(level=MC, tech='TLA+ spec Threads (all interleavings with <= 3 preemptions, TLC) whose schedules are imposed on real threads by a deterministic scheduler; ThreadTrace evaluated by TLC on the recorded runs',
@@ -102,7 +102,7 @@ CHECKS = {
                      'threads (preemption at token / pop / recovery / leaf-visit / memo-access granularity, cold runs start from '
                      'emptied memo tables); TLC checks on the recorded runs that every result equals the same call in a fresh '
                      'interpreter and that the structural fingerprint of all shared state is unchanged after first use; plus all '
-                     'sequential first-use orders of three versions.',
+                     'sequential first-use orders of three versions. Plus: call histories (90 small programs through a warm grammar in 4-12 orders), interpreter-wide settings (recursion limit, switch interval, gc) sampled at every yield point, and first-use probes at line granularity (a thread stopped before every call and line inside load_grammar / _get_token_collection from a cold state while the other thread runs to completion).',
                 note='TLC; settrace-based scheduler (one runnable thread at a time); fingerprint summarises object sets by member '
                      'types; generated tables are unique only up to state numbering, so cold states are judged by stability.',
                 ref='2.8, 3 C18'),
@@ -117,7 +117,7 @@ CHECKS = {
                      'twice, and for the same text parsed fresh / re-parsed incrementally / unpickled; TLC checks: no exception, '
                      'tree unchanged, deterministic, numeric code + message, range inside the file with non-negative columns, no '
                      'duplicate (code, start), identical across provenances, W292 exactly when an error-free text lacks a final '
-                     'line break.',
+                     'line break. Incremental provenances list the issues of the old tree before the update (state cached on reused leaves).',
                 note='TLC; recorder. Crashes of the (unfinished) indentation-stack logic are listed as known findings by crash site.',
                 ref='2.5, 3 C20'),
     'C14': dict(level='exploration', tech='TLA+ generators Bindings / SemCtx (TLC-enumerated) + relation FactsVerdict (spec Relational) evaluated by TLC on (parso helper facts, CPython ast facts) pairs',
@@ -125,7 +125,7 @@ CHECKS = {
                      'CPython parses them and parso has no error node) nine kinds of facts - definitions by position, per-scope '
                      'functions/classes/imports, parameters (name, star kind, default, annotation), return annotation, '
                      'generator-ness, return and raise statements, import paths/levels/aliases/star, docstring node - are extracted '
-                     'from parso\'s helpers and from the ast; TLC requires the fact sets to be equal kind by kind.',
+                     'from parso\'s helpers and from the ast; TLC requires the fact sets to be equal kind by kind. Plus PEP 695 headers, multi-name imports, the FlowMatrix (statement x one or two nested flow containers x function kind, incl. the looked-for words as plain text) and the clause FactsStableAcrossQueries: the facts extracted again after every helper was called with its non-default flags are the same.',
                 note='CPython ast of the interpreter running the harness; docstrings that are not one plain literal are outside the '
                      'claim; the fact extractors (harness/facts.py) are trusted.', ref='2.10, 3 C14'),
     'C15': dict(level=MC, tech='TLA+ spec Lines (line scanner + PEP 263 header decision) evaluated by TLC on real split_lines / python_bytes_to_unicode results; generators Strings and Headers enumerated by TLC',
@@ -133,7 +133,7 @@ CHECKS = {
                      'separators plus an ordinary character, and one trace per code point, validated against the TLA+ scanner '
                      'and its laws (>= 1 line, joins back, only \\n \\r\\n \\r split, keepends on/off, line count = breaks + 1 = '
                      'module end line); every abstract two-line header (7 line classes x 6 encodings x BOM x 3 bodies) rendered to '
-                     'bytes: parso must give the text CPython gives whenever CPython can decode it.',
+                     'bytes: parso must give the text CPython gives whenever CPython can decode it. Headers now have an optional third line that mentions an encoding (must be ignored), are rendered with LF / CRLF / bare CR, 9 encodings (incl. utf-8-unix, Latin_1-dos, iso-8859-10/15) and 4 bodies (incl. bytes on which the iso-8859-N codecs differ); the reference reads lines with universal newlines.',
                 note='TLC; CPython reference = tokenize.detect_encoding + decode of the interpreter running the harness.',
                 ref='2.9, 3 C15'),
     'C16': dict(level=MC, tech='TLA+ spec Cache (one action per step of the cache protocol + environment) model-checked by TLC; its histories replayed into the real cache (virtual clock, preemption at file operations) and validated by TLC against CacheTrace',
@@ -141,7 +141,7 @@ CHECKS = {
                      'second process, eviction, removed/damaged pickles; up to 2 paths x 2 grammars x 2 dirs) and confirms that '
                      'the pre-repair protocols are violated. All behaviours of three race-focused environments, the '
                      'counterexamples of the old protocols and simulated histories are replayed into the real code with real '
-                     'files; TLC validates every recorded Return against the contents the file had during the call.',
+                     'files; TLC validates every recorded Return against the contents the file had during the call. Plus 4-call two-path histories replayed with the in-memory gc trigger lowered to 2, and 15 scenarios on the real file layer (plain path / symbolic link / link to a link / hard link / relative path x memory kept / fresh process / diff_cache).',
                 note='TLC; fsim replay layer (one virtual clock domain; second process emulated by swapping parser_cache, its call '
                      'atomic); mtime granularity: every write is observable as a newer mtime.', ref='2.7, 3 C16'),
     'C17': dict(level=MC, tech='TLA+ spec Cache with Damage/CrashInStore model-checked by TLC (NeverFails); fault enumeration on the real cache validated by TLC against CacheTrace',
@@ -150,7 +150,7 @@ CHECKS = {
                      'and missing files/directories, OSError injected at each of 12 file operations in 3 phases, the 30-day '
                      'clean-up with its lock file, and TLC histories with Damage/Crash: every call must return the current tree, '
                      'the next fresh process must be served from the repaired pickle, clean-up must spare entries accessed '
-                     'within 30 days.',
+                     'within 30 days. The clean-up scenario combines every access age with a fresh and a 400-day-old modification time and contains an empty entry that another process is writing.',
                 note='TLC; fault wrappers in parso.cache namespace; bit flips excluded; read-only directories emulated by '
                      'injected PermissionError.', ref='2.7, 3 C17'),
 }
